@@ -187,7 +187,7 @@ def defaults_spec():
     fields = []
     i = 0
     for t in types:
-        lits = list(valid_literals(t))
+        lits = list(valid_literals(t, rich=True))
         for via_alias in (False, True):
             for v in lits:
                 tt = render.texpr(t)
